@@ -5,7 +5,7 @@ import json, os, sys
 ROOT = os.path.dirname(os.path.dirname(os.path.abspath(__file__)))
 
 # property id -> (technique, level text, level note, design ref)
-BUILT = ["C01","C02","C03","C04","C05","C06","C07","C08","C09","C10","C11","C12","C13","C14","C15","C16","C17","C18","C19"]
+BUILT = ["C01","C02","C03","C04","C05","C06","C07","C08","C09","C10","C11","C12","C13","C14","C15","C16","C17","C18","C19","C20"]
 
 X = "exploration"
 CHECKS_ALL = {
@@ -85,6 +85,10 @@ CHECKS_ALL = {
          "All 2,047 half-degree patterns of 0..=10 cuts (and random lists to 32 cuts) x sequences 1..=200 must map by prefix sums (6 chunks per half-degree cut, else 3), monotone, none for chunk 1 and beyond the last cut. Estimates are queried for previous sequences 0..=60 after every prefix of recorded histories (0..50 samples, durations 0..60 s, attempts 1..5, interleaved keys), with and without statistics and upload time: none where unspecified; +10 s after an end chunk; mean of the last ten durations + (mean attempts - 1) s within the rounding band; else 11/7/4 s; never before the upload time; get_statistics equals the window model.",
          "Rounding of the two means is not fixed by the statement: anything in [floor, ceil] is accepted.",
          "DESIGN.md §2 C19"),
+ "C20": ("build-status monitor over the completely enumerated feature powerset (cargo check exit status per configuration against /repo's working tree) plus a probe binary built and run per named-feature configuration under a panic monitor",
+         "The property's observable is the build, so each configuration is treated as a workload whose first event is 'it compiled' (cargo check --no-default-features --features <set> --lib --examples) and, for the named-feature configurations, whose second event is a probe binary exercising the always-present API. quick: model 2^3, decode 2^2, facade 2^3, data named 2^2 + every optional dependency alone / all-but-one / all / seeded subsets (89 cells, 25 probe runs). thorough: all 1,024 data combinations. The space is finite and thorough enumerates it completely.",
+         "cargo check type-checks but does not link (the probe runs do); examples' dev-dependencies use workspace defaults; this check sits at the edge of the runtime-monitoring family (DESIGN.md §2 C20).",
+         "DESIGN.md §2 C20"),
 }
 CHECKS = {k: v for k, v in CHECKS_ALL.items() if k in BUILT}
 
@@ -103,7 +107,7 @@ def main():
                 "thorough_cmd": f"./check {pid} thorough",
                 "evidence_file": f"/verif/evidence/{pid}.json",
                 "replay_cmd_template": f"./check {pid} --replay {{path}}",
-                "engine": "nxverif",
+                "engine": "featmatrix" if pid == "C20" else "nxverif",
                 "level_claimed": {"category": "exploration", "text": text, "design_ref": ref},
                 "level_note": note,
                 "technique": tech,
@@ -121,8 +125,10 @@ def main():
             "add_only": True,
         },
         "engines": [
-            {"name": "nxverif", "path": "/verif/harness", "serves_properties": sorted(CHECKS.keys()),
+            {"name": "nxverif", "path": "/verif/harness", "serves_properties": sorted(k for k in CHECKS.keys() if k != "C20"),
              "kind_free_text": "Rust harness linking the real crates from /repo: independent ICD encoders, reference models, panic/allocator/reader-work monitors, loopback S3 simulator with request log, offline history checkers"},
+            {"name": "featmatrix", "path": "/verif/featmatrix", "serves_properties": ["C20"],
+             "kind_free_text": "feature-powerset enumerator driving cargo check against /repo plus a per-configuration probe binary"},
         ],
         "checks": checks,
         "notes": "Runtime monitoring and sanitizers only. Exit 0 = held on everything explored; exit 1 + VIOLATION line = unlisted violation; exit 2 = harness error or inconclusive (never a verdict). Known findings: /verif/known_findings.json.",
